@@ -22,15 +22,23 @@ Two switches:
     `send_session_msg` does); the witness theorem shows why that is wrong.
   * `fixed` — `false` is the code as it is: an object is reported iff its `dlpi_name` contains the
     `filename` argument and no map has a basename starting with the object's basename
-    (`find_map_by_name`).  `true` is proposed_fixes/C10-DLREPORT.diff: an object is reported iff it
-    was appended to the loader's list after the timestamp was taken (its index is at least the
-    number of objects counted before the real dlopen, corrected by the unloads since) and its
-    first address is not inside a session map or a map of a dlopen() that is still in effect;
-    dlclose() marks every map of the handle.
+    (`find_map_by_name`); dlclose() marks the first live map of the handle.  This misses the
+    dependencies a dlopen() brings in, a second library with the same basename (or a basename that
+    is a prefix of a known one) and a library that is opened again after dlclose() (finding
+    C10-DLREPORT, witnesses in Props/C10.lean).  `true` is proposed_fixes/C10-DLREPORT.diff: an
+    object is reported iff it was appended to the loader's list after the timestamp was taken (its
+    index is at least the number of objects counted before the real dlopen, corrected by the
+    unloads since) and its first address is not inside a session map or a map of a dlopen() that
+    is still in effect; dlclose() marks the map of every object that is no longer loaded.
 
 Several dlopen() calls can be in progress at once (a constructor that calls dlopen, threads):
 each has its own `Win` (the `struct dlopen_base_data` on its C stack), identified by a number.
-Ghost fields (not in C): `Obj.born`, `Msg.born`, `Msg.stop`, `Rec.objs`.
+Ghost fields (not in C): `Obj.born`, `Obj.id` (the number of the load), `Msg.obj` (the object the
+message was sent for), `Rec.objs`, `St.nloads`, `St.lastRead` (the largest clock value read so far
+by `mcount_entry` or `dlopen`).  `Obj.syms` is not part of `dl_phdr_info` either: it is the symbol
+table of the object's file, which the analysis side loads for the library's DLOP line.
+Not modelled: the early returns of the wrappers (no thread data, recursion guard taken), the
+dynamic patching and trigger re-initialisation done for a reported object, `dlopen(NULL)`.
 Core-only.
 -/
 namespace Uft.DlRecord
@@ -43,7 +51,10 @@ structure Obj where
   bias : Nat                -- dlpi_addr
   start : Nat               -- dlpi_addr + p_vaddr of the first PT_LOAD
   stop : Nat                -- end of the first executable PT_LOAD
+  syms : List Sym           -- the symbol table of the file (addresses relative to `bias`): what
+                            -- `uftrace record` saves as <basename>.sym and the analysis side loads
   born : Nat                -- ghost: time at which the loader mapped it
+  id : Nat                  -- ghost: how many objects the loader had mapped before this one
 deriving DecidableEq, Repr
 
 /-- `struct uftrace_mmap` in `mcount_sym_info.maps`; `handle = none` for the maps read from
@@ -70,9 +81,7 @@ structure Msg where
   time : Nat
   bias : Nat                -- base_addr
   name : List Char          -- libname
-  start : Nat               -- ghost: the object's range and birth
-  stop : Nat
-  born : Nat
+  obj : Obj                 -- ghost: the object it was sent for
 deriving DecidableEq, Repr
 
 /-- a record of `mcount_entry` -/
@@ -95,13 +104,15 @@ structure St where
   wins : List Win := []
   msgs : List Msg := []     -- oldest first
   recs : List Rec := []     -- oldest first
+  nloads : Nat := 0         -- ghost
+  lastRead : Nat := 0       -- ghost
 deriving Repr
 
 inductive Ev where
   | tick (dt : Nat)
   | call (addr : Nat)
   | enter (w : Nat) (fname : List Char)
-  | load (name real : List Char) (bias start stop : Nat)
+  | load (name real : List Char) (bias start stop : Nat) (syms : List Sym)
   | leave (w : Nat) (handle : Nat)
   | close (handle : Nat) (gone : List Nat)     -- starts of the objects the real dlclose unmaps
 deriving Repr
@@ -133,8 +144,7 @@ def reports (cfg : Cfg) (win : Win) (subs : Nat) (maps : List MMap) (idx : Nat) 
 
 /-- the message and the map of a reported object -/
 def mkMsg (cfg : Cfg) (win : Win) (now : Nat) (o : Obj) : Msg :=
-  { time := if cfg.stampAtSend then now else win.ts, bias := o.bias, name := o.name,
-    start := o.start, stop := o.stop, born := o.born }
+  { time := if cfg.stampAtSend then now else win.ts, bias := o.bias, name := o.name, obj := o }
 
 def mkMap (h : Nat) (o : Obj) : MMap :=
   { name := o.real, start := o.start, stop := o.stop, handle := some h, live := true }
@@ -148,25 +158,35 @@ def reportLoop (cfg : Cfg) (win : Win) (h now subs : Nat) :
       reportLoop cfg win h now subs (idx + 1) r (mkMap h o :: maps) (msgs ++ [mkMsg cfg win now o])
     else reportLoop cfg win h now subs (idx + 1) r maps msgs
 
-/-- `dlclose()`: as coded only the first live map of the handle is marked, with the fix all -/
-def markClosed (fixed : Bool) (h : Nat) : List MMap → List MMap
+/-- `dlclose()` as coded: the first live map of the handle is marked (`map->mod = NULL`) -/
+def markClosed (h : Nat) : List MMap → List MMap
   | [] => []
   | m :: r =>
-    if m.live ∧ m.handle = some h then
-      { m with live := false } :: (if fixed then markClosed fixed h r else r)
-    else m :: markClosed fixed h r
+    if m.live ∧ m.handle = some h then { m with live := false } :: r
+    else m :: markClosed h r
+
+/-- (fix) `dlclose()`: every live dlopen() map whose object is not in the loader's list any more -/
+def markGone (loaded : List Obj) (maps : List MMap) : List MMap :=
+  maps.map (fun m =>
+    if m.live && m.handle.isSome && !(loaded.any (fun o => o.start == m.start)) then
+      { m with live := false }
+    else m)
 
 def findWin (wins : List Win) (w : Nat) : Option Win := wins.find? (fun x => x.id == w)
 
 def step (cfg : Cfg) (st : St) : Ev → St
   | .tick dt => { st with now := st.now + dt }
-  | .call a => { st with recs := st.recs ++ [{ time := st.now, addr := a, objs := st.loaded }] }
+  | .call a =>
+    { st with recs := st.recs ++ [{ time := st.now, addr := a, objs := st.loaded }],
+              lastRead := st.now }
   | .enter w f =>
     { st with wins := { id := w, ts := st.now, fname := f, nrBefore := st.loaded.length,
-                        subsBefore := st.subs } :: st.wins }
-  | .load n r b s e =>
+                        subsBefore := st.subs } :: st.wins,
+              lastRead := st.now }
+  | .load n r b s e t =>
     { st with loaded := st.loaded ++ [{ name := n, real := r, bias := b, start := s, stop := e,
-                                        born := st.now }] }
+                                        syms := t, born := st.now, id := st.nloads }],
+              nloads := st.nloads + 1 }
   | .leave w h =>
     match findWin st.wins w with
     | none => st
@@ -174,27 +194,27 @@ def step (cfg : Cfg) (st : St) : Ev → St
       let res := reportLoop cfg win h st.now st.subs 0 st.loaded st.maps st.msgs
       { st with maps := res.1, msgs := res.2, wins := st.wins.filter (fun x => x.id != w) }
   | .close h gone =>
-    { st with loaded := st.loaded.filter (fun o => !(gone.contains o.start)),
+    let rest := st.loaded.filter (fun o => !(gone.contains o.start))
+    { st with loaded := rest,
               subs := st.subs + (st.loaded.filter (fun o => gone.contains o.start)).length,
-              maps := markClosed cfg.fixed h st.maps }
+              maps := if cfg.fixed then markGone rest st.maps else markClosed h st.maps }
 
 def run (cfg : Cfg) (st : St) (evs : List Ev) : St := evs.foldl (step cfg) st
 
-/-! ### what the analysis side makes of the messages (module granularity)
+/-! ### what the analysis side makes of the messages
 
 Each message becomes an entry of the session's dlopen list (`session_add_dlopen`, in file
-order); the library's table is represented by one symbol that covers the object and carries
-the object's name, so that `findDlsym` answers "which library" for an address. -/
+order) with the library's symbol table, loaded at the message's `base_addr`. -/
 
 def libOf (m : Msg) : Uft.Session.DlLib :=
-  { time := m.time, base := m.bias,
-    syms := [{ addr := m.start - m.bias, size := m.stop - m.start, type := 'T', name := m.name }] }
+  { time := m.time, base := m.bias, syms := m.obj.syms }
 
 def dlList (msgs : List Msg) : List Uft.Session.DlLib :=
   msgs.foldl (fun acc m => Uft.Session.addDlopen acc (libOf m)) []
 
-/-- the library name under which a record is shown (`none` = raw address, module [unknown]) -/
-def shownIn (msgs : List Msg) (t a : Nat) : Option (List Char) :=
-  (Uft.Session.findDlsym (dlList msgs) t a).map (·.name)
+/-- the symbol under which a record is shown (`none` = raw address, module [unknown]):
+    `session_find_dlsym(sess, time, addr)` -/
+def shownIn (msgs : List Msg) (t a : Nat) : Option Sym :=
+  Uft.Session.findDlsym (dlList msgs) t a
 
 end Uft.DlRecord
